@@ -185,8 +185,7 @@ def static_closure(check, P: Program):
         else:
             check.violation("R5", f"flag-writer:{m}:{c}:{attr}", f"{attr} is stored outside GState, in {m} class {c} (line {line})",
                             [f"{m}:{line}"])
-    if n_w < 2:
-        raise AnalysisError("C02.R5: fewer than 2 stores of the interlock flags found in GState (anchor vanished)")
+    check.floor(not (n_w < 2), "C02.R5: fewer than 2 stores of the interlock flags found in GState (anchor vanished)")
     for m, code, line in literal_sites:
         if m.endswith("codes.gcode_mappings"):
             check.ok("R5", f"literal {code} in the table")
@@ -203,8 +202,7 @@ def run(check, repo, tier):
     cr = CommandRun(repo, tier=tier, exclude=("write",), cm_body=("pass", "raise"),
                     pins=pins_thorough if tier == "thorough" else None)
     results = cr.run(analyse)
-    if cr.stats["commands"] < 40:
-        raise AnalysisError(f"C02: only {cr.stats['commands']} public commands analysed (floor 40)")
+    check.floor(not (cr.stats["commands"] < 40), f"C02: only {cr.stats['commands']} public commands analysed (floor 40)")
     guarded_seen = set()
     triples = 0
     for r in results:
@@ -240,8 +238,7 @@ def run(check, repo, tier):
             check.sample({"command": r["command"], "context": r["ctx"], "abstract_paths": r["paths"], "accepted_codes": sorted(accepted_codes),
                           "interlock_rejections": sorted({i[3] for i in interlocks})})
     missing = GUARDED - guarded_seen
-    if missing:
-        raise AnalysisError(f"C02: guarded codes never delivered by any analysed command: {sorted(missing)} (anchor floor)")
+    check.floor(not (missing), f"C02: guarded codes never delivered by any analysed command: {sorted(missing)} (anchor floor)")
     static_closure(check, cr.program)
     check.analysed = dict(cr.stats, command_contexts=triples, guarded_codes_seen=sorted(guarded_seen))
     check.coverage["exhaustive"] = tier == "thorough"
